@@ -91,6 +91,9 @@ def dags(thorough=False):
     out['dup-leaves'] = [SCell(bits_of('d2', 16), [SCell(bits_of('same', 24)), SCell(bits_of('same', 24))])]
     x = SCell(bits_of('deep', 30))
     out['shared-later'] = [SCell(bits_of('r2', 5), [x, SCell(bits_of('y2', 5), [x])])]
+    # the largest possible cell: 1023 data bits and four references (128 data bytes + 2 descriptor bytes + 4 indices)
+    out['full-4refs'] = [SCell(bits_of('full', 1023), [SCell(bits_of(f'f{i}', 3 + i)) for i in range(4)])]
+    out['nearfull-4refs'] = [SCell(bits_of('nfull', 1017), [SCell(bits_of(f'g{i}', 1016 + i), [SCell(bits_of(f'h{j}', j)) for j in range(4)]) for i in range(4)])]
     out['four-refs'] = [SCell('', [SCell(bits_of(f'c{i}', 8 * i + 1)) for i in range(4)])]
     # payload size around the one/two-byte boundary of off_bytes
     for tot, tag in ((255, 'payload255'), (256, 'payload256')):
